@@ -94,6 +94,9 @@ type Term struct {
 	F    float64 // const float
 	Name string  // var
 	A, B int
+	bk   uint8 // bounds cache: 0 unknown, 1 computed
+	lo   uint64
+	hi   uint64
 }
 
 func (t *Term) IsConst() bool { return t.Op == OpConst }
@@ -187,6 +190,102 @@ func sameDepth(a, b *Term, d int) bool {
 
 func mk(op Op, s Sort, args ...*Term) *Term { return &Term{Op: op, S: s, Args: args} }
 
+// ubounds returns unsigned bounds lo <= t <= hi derived from the term structure alone.
+func ubounds(t *Term) (uint64, uint64) {
+	if t.S.K != SBV {
+		return 0, 1
+	}
+	if t.bk == 1 {
+		return t.lo, t.hi
+	}
+	lo, hi := uint64(0), mask(t.S.W)
+	switch t.Op {
+	case OpConst:
+		lo, hi = t.Val, t.Val
+	case OpZExt:
+		lo, hi = ubounds(t.Args[0])
+	case OpExtract:
+		if t.B == 0 {
+			l, h := ubounds(t.Args[0])
+			if h <= mask(t.S.W) {
+				lo, hi = l, h
+			}
+		}
+	case OpAnd:
+		_, h0 := ubounds(t.Args[0])
+		_, h1 := ubounds(t.Args[1])
+		lo = 0
+		if h0 < h1 {
+			hi = h0
+		} else {
+			hi = h1
+		}
+	case OpAdd:
+		l0, h0 := ubounds(t.Args[0])
+		l1, h1 := ubounds(t.Args[1])
+		if h0+h1 >= h0 && h0+h1 <= mask(t.S.W) {
+			lo, hi = l0+l1, h0+h1
+		}
+	case OpMul:
+		l0, h0 := ubounds(t.Args[0])
+		l1, h1 := ubounds(t.Args[1])
+		hh, ll := bits.Mul64(h0, h1)
+		if hh == 0 && ll <= mask(t.S.W) {
+			lo, hi = l0*l1, ll
+		}
+	case OpUDiv:
+		l0, h0 := ubounds(t.Args[0])
+		l1, h1 := ubounds(t.Args[1])
+		if l1 > 0 {
+			lo, hi = l0/h1, h0/l1
+		}
+	case OpURem:
+		_, h0 := ubounds(t.Args[0])
+		l1, h1 := ubounds(t.Args[1])
+		if l1 > 0 {
+			hi = h1 - 1
+			if h0 < hi {
+				hi = h0
+			}
+		}
+	case OpLShr:
+		if t.Args[1].IsConst() && t.Args[1].Val < 64 {
+			l0, h0 := ubounds(t.Args[0])
+			lo, hi = l0>>t.Args[1].Val, h0>>t.Args[1].Val
+		}
+	case OpIte:
+		l0, h0 := ubounds(t.Args[1])
+		l1, h1 := ubounds(t.Args[2])
+		lo, hi = l0, h0
+		if l1 < lo {
+			lo = l1
+		}
+		if h1 > hi {
+			hi = h1
+		}
+	}
+	t.bk, t.lo, t.hi = 1, lo, hi
+	return lo, hi
+}
+
+// mulNoWrap reports whether t = x*c (c constant) cannot wrap, returning x and c.
+func mulNoWrap(t *Term) (*Term, uint64, bool) {
+	if t.Op != OpMul {
+		return nil, 0, false
+	}
+	for i := 0; i < 2; i++ {
+		c, x := t.Args[i], t.Args[1-i]
+		if c.IsConst() && c.Val != 0 {
+			_, hx := ubounds(x)
+			hh, ll := bits.Mul64(hx, c.Val)
+			if hh == 0 && ll <= mask(t.S.W) {
+				return x, c.Val, true
+			}
+		}
+	}
+	return nil, 0, false
+}
+
 // ---------- bit-vector arithmetic with constant folding ----------
 
 func BinBV(op Op, a, b *Term) *Term {
@@ -271,6 +370,31 @@ func BinBV(op Op, a, b *Term) *Term {
 			panic("BinBV op")
 		}
 		return BVC(r, w)
+	}
+	// signed division of provably non-negative operands is unsigned division
+	if op == OpSDiv || op == OpSRem {
+		_, ha := ubounds(a)
+		_, hb := ubounds(b)
+		if w > 1 && ha < uint64(1)<<uint(w-1) && hb < uint64(1)<<uint(w-1) {
+			if op == OpSDiv {
+				return BinBV(OpUDiv, a, b)
+			}
+			return BinBV(OpURem, a, b)
+		}
+	}
+	if (op == OpUDiv || op == OpURem) && b.IsConst() && b.Val != 0 {
+		if x, c, ok := mulNoWrap(a); ok && c%b.Val == 0 {
+			if op == OpURem {
+				return BVC(0, w)
+			}
+			return BinBV(OpMul, x, BVC(c/b.Val, w))
+		}
+		if _, ha := ubounds(a); ha < b.Val {
+			if op == OpURem {
+				return a
+			}
+			return BVC(0, w)
+		}
 	}
 	// local identities
 	switch op {
@@ -371,6 +495,12 @@ func Eq(a, b *Term) *Term {
 				return a
 			}
 			return Not(a)
+		}
+	}
+	// x*c == y*c without wrap-around  ->  x == y
+	if xa, ca, ok := mulNoWrap(a); ok {
+		if xb, cb, ok := mulNoWrap(b); ok && ca == cb && xa.S == xb.S {
+			return Eq(xa, xb)
 		}
 	}
 	// (x + c1) == c2  -> x == c2-c1
@@ -646,6 +776,15 @@ func Concat(parts ...*Term) *Term {
 // ---------- floats ----------
 
 func FBin(op Op, a, b *Term) *Term {
+	if b.IsConst() {
+		// exact identities of IEEE arithmetic
+		if (op == OpFDiv || op == OpFMul) && b.F == 1.0 {
+			return a
+		}
+		if (op == OpFAdd || op == OpFSub) && b.F == 0 {
+			return a
+		}
+	}
 	if a.IsConst() && b.IsConst() {
 		switch op {
 		case OpFAdd:
@@ -714,6 +853,31 @@ func F2I(a *Term, w int, signed bool) *Term {
 			return BVC(uint64(int64(a.F)), w)
 		}
 		return BVC(uint64(a.F), w)
+	}
+	if a.Op == OpI2F && a.A == 0 {
+		// unsigned integer below 2^53 converts exactly; truncation to w bits as in Go for in-range values
+		x := a.Args[0]
+		if _, hx := ubounds(x); hx < 1<<53 {
+			lim := mask(w)
+			if signed {
+				lim = mask(w - 1)
+			}
+			if hx <= lim {
+				return ZExt(x, w)
+			}
+		}
+	}
+	if a.Op == OpI2F && a.A == 1 {
+		x := a.Args[0]
+		if _, hx := ubounds(x); hx < 1<<53 { // provably non-negative and small
+			lim := mask(w)
+			if signed {
+				lim = mask(w - 1)
+			}
+			if hx <= lim {
+				return ZExt(x, w)
+			}
+		}
 	}
 	t := mk(OpF2I, BV(w), a)
 	if signed {
